@@ -265,6 +265,58 @@ func main() {
 		o.Set("txnit.tracksRange", "txn_iterator.go:TxnIterator.advance", "false", asis, "false")
 	}
 
+	// ---- every transaction waits for the commits it may see: newTransaction takes its read
+	// timestamp from oracle.readTs() unconditionally, and readTs() waits on txnMark
+	{
+		rt := tx.Func("oracle.readTs")
+		nt := tx.Func("DB.newTransaction")
+		ok := rt != nil && nt != nil
+		val := ""
+		if ok {
+			waits := tx.HasCall(rt.Body, "o.txnMark.WaitForMark") && tx.HasStmt(rt.Body, "utils.Check(o.txnMark.WaitForMark(context.Background(), readTs))")
+			direct := tx.HasStmt(nt.Body, "txn.readTs = db.orc.readTs()")
+			// the assignment must not sit under a condition
+			guarded := len(tx.IfWithBodyContaining(nt.Body, "txn.readTs = db.orc.readTs()")) > 0
+			n := 0
+			ast.Inspect(nt.Body, func(x ast.Node) bool {
+				if as, isAs := x.(*ast.AssignStmt); isAs && len(as.Lhs) == 1 && tx.Src(as.Lhs[0]) == "txn.readTs" && tx.Src(as.Rhs[0]) != "0" {
+					n++
+				}
+				return true
+			})
+			switch {
+			case waits && direct && !guarded && n == 1:
+				val = "true"
+			case direct || n > 0:
+				val = "false"
+			default:
+				ok = false
+			}
+		}
+		o.Set("oracle.beginWaits", "txn.go:DB.newTransaction/oracle.readTs", val, ok, "true")
+	}
+
+	// ---- commitWorker: when applyRequests stops at request `failedAt`, that request and every
+	// request behind it in the batch get the error
+	{
+		dw := o.Load("db_write.go")
+		cw := dw.Func("DB.commitWorker")
+		val, ok := "", false
+		if cw != nil {
+			src := dw.Src(cw.Body)
+			hasBranch := strings.Contains(src, "if err != nil && failedAt >= 0 {") && strings.Contains(src, "db.finishCommitRequests(batch.reqs, nil, perReqErr)") &&
+				strings.Contains(src, "failedAt, err := db.applyRequests(batch.requests)")
+			loop := strings.Contains(src, "for i := failedAt; i < len(batch.requests); i++ {") && strings.Contains(src, "perReqErr[batch.requests[i]] = err")
+			switch {
+			case hasBranch && loop:
+				val, ok = "fromFailed", true
+			case hasBranch && strings.Contains(src, "batch.requests[failedAt]: err"):
+				val, ok = "onlyFailed", true
+			}
+		}
+		o.Set("db.failFanout", "db_write.go:DB.commitWorker", val, ok, "fromFailed")
+	}
+
 	// ---- initCommitState: seeding of the timestamp allocator after Open
 	{
 		fd := tx.Func("oracle.initCommitState")
